@@ -94,6 +94,11 @@ PrimApply(op, a) ==
     [] op = "bi.ne"  -> VBool(~Eq(a[1].z, a[2].z))
     [] op = "bi.pow" -> IF Len(a[1].z.mag) * MToNat(a[2].z.mag) > 400 THEN TooBig
                         ELSE VBI(PowNat(a[1].z, MToNat(a[2].z.mag)))     \* exponent: small non-negative SI
+    \* strings: concat, # (length), = and ~=
+    [] op = "str.cat" -> VStr(a[1].s \o a[2].s)
+    [] op = "str.len" -> VSI(FromInt(Len(a[1].s)))
+    [] op = "str.eq"  -> VBool(a[1].s = a[2].s)
+    [] op = "str.ne"  -> VBool(a[1].s # a[2].s)
     [] op = "bool.not" -> VBool(~a[1].b)
     [] op = "bool.eq"  -> VBool(a[1].b = a[2].b)
     [] op = "bool.ne"  -> VBool(a[1].b # a[2].b)
